@@ -28,6 +28,8 @@ PSUM_LEMMAS = [
     Lemma("psum_dec", "psum(g, k) == psum(f, k) - 1", binders=[("f", "AInt"), ("g", "AInt"), ("i0", "Int"), ("k", "Int")],
           hyps=["0 <= i0", "i0 < k", "forall(i, 0, k, implies(i != i0, g[i] == f[i]))", "g[i0] == f[i0] - 1"],
           method=("induction", "k", "i0 + 1"), pats=[("psum(g, k)", "psum(f, k)", "g[i0]")]),
+    Lemma("rpsum_pos", "rpsum(f, k) > 0", binders=[("f", "AReal"), ("k", "Int")],
+          hyps=["1 <= k", "forall(i, 0, k, f[i] > 0)"], method=("induction", "k", "1")),
     Lemma("psum_pos", "psum(f, k) >= 1", binders=[("f", "AInt"), ("i0", "Int"), ("k", "Int")],
           hyps=["0 <= i0", "i0 < k", "forall(i, 0, k, f[i] >= 0)", "f[i0] >= 1"], method=("induction", "k", "i0 + 1")),
 ]
